@@ -90,6 +90,12 @@ fn validate_file_name(name: &str) -> Result<&str> {
             ErrorKind::InvalidInput,
             "kismet cached file name must not starts with a backslash",
         )),
+        // A path separator anywhere in the name would make it denote
+        // a file in a subdirectory, or even outside the cache directory.
+        Some(_) if name.as_bytes().contains(&b'/') => Err(Error::new(
+            ErrorKind::InvalidInput,
+            "kismet cached file name must not contain a forward slash",
+        )),
         Some(_) => Ok(name),
     }
 }
